@@ -24,7 +24,7 @@ StructInfo(t, m, blk, k, current, imaginary) ==
   ELSE LET j == blk[k]
            drift1 == IF Off(t, m, j) # None /\ current # None /\ Off(t, m, j) - current > 0 THEN Off(t, m, j) - current ELSE 0
            cur1 == IF current = None THEN None ELSE current + drift1
-           drift2 == IF m.align /\ Off(t, m, j) = None THEN AlignUp(imaginary, FAlign(t, m, j)) - imaginary ELSE 0
+           drift2 == IF Aligned(t, m) /\ Off(t, m, j) = None THEN AlignUp(imaginary, FAlign(t, m, j)) - imaginary ELSE 0
            im1 == imaginary + drift2
            sz == FSize(t, m, j)
        IN (IF drift1 > 0 THEN << [pad |-> drift1, f |-> 0] >> ELSE << >>)
@@ -34,7 +34,7 @@ StructInfo(t, m, blk, k, current, imaginary) ==
 
 FlushOps(t, m, blk) ==
   IF Len(blk) = 0 THEN << >>
-  ELSE (IF m.align /\ Off(t, m, blk[1]) = None THEN << [op |-> "align", a |-> FAlign(t, m, blk[1]), items |-> << >>, i |-> 0] >> ELSE << >>)
+  ELSE (IF Aligned(t, m) /\ Off(t, m, blk[1]) = None THEN << [op |-> "align", a |-> FAlign(t, m, blk[1]), items |-> << >>, i |-> 0] >> ELSE << >>)
        \o << [op |-> "block", a |-> 0, items |-> StructInfo(t, m, blk, 1, Off(t, m, blk[1]), 0), i |-> 0] >>
 
 Seek(off) == [op |-> "seek", a |-> off, items |-> << >>, i |-> 0]
@@ -42,7 +42,7 @@ Align(a) == [op |-> "align", a |-> a, items |-> << >>, i |-> 0]
 \* align_to_field: [ops, cur]
 AlignToField(t, m, j, cur) ==
   [ops |-> (IF Off(t, m, j) # None /\ Off(t, m, j) # cur THEN << Seek(Off(t, m, j)) >> ELSE << >>)
-           \o (IF m.align /\ Off(t, m, j) = None THEN << Align(FAlign(t, m, j)) >> ELSE << >>),
+           \o (IF Aligned(t, m) /\ Off(t, m, j) = None THEN << Align(FAlign(t, m, j)) >> ELSE << >>),
    cur |-> IF Off(t, m, j) # None /\ Off(t, m, j) # cur THEN Off(t, m, j) ELSE cur]
 
 
@@ -71,13 +71,13 @@ GenStep(t, m, st, i, old) ==
           IN [st EXCEPT !.plan = @ \o ops0 \o FlushOps(t, m, st.block) \o a2f.ops \o << [op |-> "bits", a |-> 0, items |-> << >>, i |-> i] >>,
                         !.block = << >>, !.pwb = TRUE, !.pbt = pbt1, !.br = br1,
                         !.cur = IF a2f.cur # None /\ roll THEN a2f.cur + size ELSE a2f.cur]
-     ELSE LET flushfirst == ~old /\ m.align /\ Off(t, m, i) = None                      \* dynamic offsets: one field per block
+     ELSE LET flushfirst == ~old /\ Aligned(t, m) /\ Off(t, m, i) = None                      \* dynamic offsets: one field per block
               seekfirst == ~old /\ ~flushfirst /\ Len(st.block) = 0 /\ Off(t, m, i) # None /\ Off(t, m, i) # st.cur
               ops1 == (IF flushfirst THEN FlushOps(t, m, st.block) ELSE << >>) \o (IF seekfirst THEN << Seek(Off(t, m, i)) >> ELSE << >>)
               cur1 == IF seekfirst THEN Off(t, m, i) ELSE st.cur
           IN [st EXCEPT !.plan = @ \o ops0 \o ops1, !.block = (IF flushfirst THEN << >> ELSE st.block) \o << i >>,
                         !.pwb = pwb0, !.br = br0, !.cur = IF cur1 # None /\ size # Dyn THEN cur1 + size ELSE cur1]
-GenFinish(t, m, st) == st.plan \o FlushOps(t, m, st.block) \o (IF m.align THEN << [op |-> "tailalign", a |-> 0, items |-> << >>, i |-> 0] >> ELSE << >>)
+GenFinish(t, m, st) == st.plan \o FlushOps(t, m, st.block) \o (IF Aligned(t, m) THEN << [op |-> "tailalign", a |-> 0, items |-> << >>, i |-> 0] >> ELSE << >>)
 RECURSIVE GenFrom(_, _, _, _, _)
 GenFrom(t, m, st, i, old) == IF i > Len(t.fields) THEN GenFinish(t, m, st) ELSE GenFrom(t, m, GenStep(t, m, st, i, old), i + 1, old)
 GenPlan(t, m, old) == GenFrom(t, m, GenInit, 1, old)
